@@ -182,6 +182,22 @@ def pair_codec(run, h, batch, rng):
         run.check_monitor("generated_pair_is_hash_lock", sec == s and index == first and canonical_lock(s, index) == lock and (index == 0) == canonical,
                           dict(gc, impl=[lock, sec, index]))
         batch.add("r_revpair_new %d" % s, lambda r, gc=gc, e=[1, lock, sec, index]: run.check_corr("corr.C05.revpair_new", r == e, dict(gc, model=r)))
+    # a NON-CANONICAL secret encoding (an integer in [q, 2^256)) whose raw bytes hash to a canonical digest, with that digest as
+    # the lock: consistent as bytes, but the secret is not a scalar encoding - must be refused (a decoder that hashes the raw
+    # bytes and then reduces the secret modulo q would hand out a pair whose lock is not the hash of its secret)
+    for _ in range(2):
+        while True:
+            raw = rng.randrange(Q, 2 ** 256)
+            idx = rng.randrange(0, 3)
+            dgt = int.from_bytes(sha3(raw.to_bytes(32, "little") + bytes([idx])), "little")
+            if dgt < Q:
+                break
+        enc = dgt.to_bytes(32, "little").hex() + raw.to_bytes(32, "little").hex() + "%02x" % idx
+        got = h.call("decode", "RevocationPair", enc)[0] == "ok"
+        cc = {"op": "revpair_decode", "kind": "secret_encoding_not_canonical_lock_is_digest_of_raw_bytes", "raw_secret": raw, "index": idx}
+        run.case(cc)
+        run.count("decode noncanonical secret")
+        run.check_monitor("decoded_pair_is_hash_lock", not got, dict(cc, impl=got))
     # non-canonical scalar encodings inside the pair
     raw = (Q + 1).to_bytes(32, "little").hex()
     got = h.call("decode", "RevocationPair", raw + sc(5) + "00")[0] == "ok"
